@@ -23,7 +23,7 @@ theorem wakeNext_inf (p : Pool) (hv : p.sem.value = .inf) (hw : p.sem.waiters = 
   simp [hv, hw, wakeNextL]
 
 theorem roomGranted_good {cap : Cap} (p : Pool) (m : Nat) (r : Req) (hph : PhaseOK p) (hreg : RegOK p)
-    (hgrp : GroupsOK p) (hpre : SlotPre cap p) : Good cap (p.roomGranted m r) := by
+    (hgrp : GroupsOK p) (hlife : LifeOK p) (hpre : SlotPre cap p) : Good cap (p.roomGranted m r) := by
   unfold roomGranted
   simp only
   apply good_continueSpawner
@@ -31,7 +31,8 @@ theorem roomGranted_good {cap : Cap} (p : Pool) (m : Nat) (r : Req) (hph : Phase
   · rename_i hz
     have h3 := wakeNext_tasks p
     obtain ⟨r1, r2, r3, r4⟩ := wakeNext_regs p
-    refine good_createTask_afterTake _ m _ ?_ (hreg.of_eq h3 r1 r2 r3 r4) (hgrp.of_eq (by simp) (by rw [h3])) ?_
+    refine good_createTask_afterTake _ m _ ?_ (hreg.of_eq h3 r1 r2 r3 r4) (hgrp.of_eq (by simp) (by rw [h3]))
+      (hlife.of_eq h3 r4) ?_
     · intro i tk h hn; rw [h3] at h; exact hph i tk h hn
     · cases cap with
       | fin n =>
@@ -43,7 +44,7 @@ theorem roomGranted_good {cap : Cap} (p : Pool) (m : Nat) (r : Req) (hph : Phase
         obtain ⟨v', h1, h2, _⟩ := wakeNext_effect p v hv hpos
         exact ⟨v', h1, by rw [h3]; omega⟩
       | inf => exact wakeNext_inf p hpre.1 hpre.2
-  · exact good_createTask_afterTake p m _ hph hreg hgrp hpre
+  · exact good_createTask_afterTake p m _ hph hreg hgrp hlife hpre
 
 /-- slot conservation while a removed waiter entry may still carry a granted slot -/
 def SlotGrant (cap : Cap) (p : Pool) (st : Option WaitSt) : Prop :=
@@ -53,7 +54,8 @@ def SlotGrant (cap : Cap) (p : Pool) (st : Option WaitSt) : Prop :=
   | .inf => p.sem.value = .inf ∧ p.sem.waiters = []
 
 theorem roomWaitCancelled_good {cap : Cap} (p : Pool) (m : Nat) (r : Req) (st : Option WaitSt) (hph : PhaseOK p)
-    (hreg : RegOK p) (hgrp : GroupsOK p) (hsg : SlotGrant cap p st) : Good cap (p.roomWaitCancelled m r st) := by
+    (hreg : RegOK p) (hgrp : GroupsOK p) (hlife : LifeOK p) (hsg : SlotGrant cap p st) :
+    Good cap (p.roomWaitCancelled m r st) := by
   unfold roomWaitCancelled
   simp only
   have key : Good cap (if (st == some WaitSt.granted) = true then p.releasePool else p) := by
@@ -62,7 +64,7 @@ theorem roomWaitCancelled_good {cap : Cap} (p : Pool) (m : Nat) (r : Req) (st : 
       have hst : st = some .granted := by simpa using h
       have h3 := releasePool_tasks' p
       obtain ⟨r1, r2, r3, r4⟩ := releasePool_regs p
-      refine ⟨?_, ?_, hreg.of_eq h3 r1 r2 r3 r4, hgrp.of_eq (releasePool_groups p) (by rw [h3])⟩
+      refine ⟨?_, ?_, hreg.of_eq h3 r1 r2 r3 r4, hgrp.of_eq (releasePool_groups p) (by rw [h3]), hlife.of_eq h3 r4⟩
       · cases cap with
         | fin n =>
           obtain ⟨v, hv, hs⟩ := hsg
@@ -73,7 +75,7 @@ theorem roomWaitCancelled_good {cap : Cap} (p : Pool) (m : Nat) (r : Req) (st : 
       · intro i tk h hn; rw [h3] at h; exact hph i tk h hn
     · rename_i h
       have hst : ¬ st = some .granted := by simpa using h
-      refine ⟨?_, hph, hreg, hgrp⟩
+      refine ⟨?_, hph, hreg, hgrp, hlife⟩
       cases cap with
       | fin n =>
         obtain ⟨v, hv, hs⟩ := hsg
@@ -95,8 +97,10 @@ theorem good_wakeWaitRoom {cap : Cap} (p : Pool) (m : Nat) (r : Req) (hg : Good 
       fun x => { x with mustCancel := false }) := hg.reg.of_eq rfl rfl rfl rfl rfl
   have hgrp : GroupsOK (({ p with sem := { p.sem with waiters := (removeWaiterL m p.sem.waiters).2 } } : Pool).modReq m
       fun x => { x with mustCancel := false }) := hg.grp.of_eq rfl rfl
+  have hlife : LifeOK (({ p with sem := { p.sem with waiters := (removeWaiterL m p.sem.waiters).2 } } : Pool).modReq m
+      fun x => { x with mustCancel := false }) := hg.life.of_eq rfl rfl
   split
-  · refine roomWaitCancelled_good _ m r _ hph hreg hgrp ?_
+  · refine roomWaitCancelled_good _ m r _ hph hreg hgrp hlife ?_
     cases cap with
     | fin n =>
       obtain ⟨v, hv, hs⟩ := hg.slot
@@ -107,7 +111,7 @@ theorem good_wakeWaitRoom {cap : Cap} (p : Pool) (m : Nat) (r : Req) (hg : Good 
   · split
     · rename_i hgr
       have hst : (removeWaiterL m p.sem.waiters).1 = some .granted := by simpa using hgr
-      refine roomGranted_good _ m r hph hreg hgrp ?_
+      refine roomGranted_good _ m r hph hreg hgrp hlife ?_
       cases cap with
       | fin n =>
         obtain ⟨v, hv, hs⟩ := hg.slot
@@ -117,7 +121,7 @@ theorem good_wakeWaitRoom {cap : Cap} (p : Pool) (m : Nat) (r : Req) (hg : Good 
       exact ⟨hv, by simp [modReq, hw, removeWaiterL]⟩
     · rename_i hc hgr
       have hst : ¬ (removeWaiterL m p.sem.waiters).1 = some .granted := by simpa using hgr
-      refine ⟨?_, hph, hreg, hgrp⟩
+      refine ⟨?_, hph, hreg, hgrp, hlife⟩
       cases cap with
       | fin n =>
         obtain ⟨v, hv, hs⟩ := hg.slot
@@ -179,7 +183,7 @@ theorem tame_gatherChildDone (p : Pool) (g i b) : Tame p (p.gatherChildDone g i 
 theorem tame_registerChild (p : Pool) (c g i) : Tame p (p.registerChild c g i) := by
   unfold registerChild
   split
-  · exact tame_modTask p _ _ (fun _ => rfl) (fun _ => Or.inl rfl)
+  · exact tame_modTask p _ _
   · exact tame_modReq p _ _
 
 theorem tame_gatherScan (g : Nat) (cs : List Child) (i : Nat) (p : Pool) : Tame p (gatherScan g cs i p) := by
@@ -205,7 +209,7 @@ theorem good_flushAfter2 {cap : Cap} (p : Pool) (a o) (hg : Good cap p) : Good c
   split
   · simp only
     refine (tame_finishApi _ a _).good ?_
-    refine ⟨hg.slot, hg.phase, ?_, hg.grp.of_eq rfl rfl⟩
+    refine ⟨hg.slot, hg.phase, ?_, hg.grp.of_eq rfl rfl, hg.life.lostMono rfl (fun h => by simp [h])⟩
     exact hg.reg.flushForget _ _ _ rfl rfl rfl rfl (by simp)
   · exact (tame_finishApi p a _).good hg
 
@@ -237,7 +241,8 @@ theorem good_gacAfter2 {cap : Cap} (p : Pool) (a o) (hg : Good cap p) : Good cap
   · simp only
     refine (tame_finishApi _ a _).good ?_
     refine (tame_foldl _ _ (fun p w => tame_schedApi p w) _).good ?_
-    exact ⟨hg.slot, hg.phase, hg.reg.gacClear _ rfl rfl rfl rfl rfl, hg.grp.of_eq rfl rfl⟩
+    exact ⟨hg.slot, hg.phase, hg.reg.gacClear _ rfl rfl rfl rfl rfl, hg.grp.of_eq rfl rfl,
+      hg.life.lostMono rfl (fun h => by simp [h])⟩
   · exact (tame_finishApi p a _).good hg
 
 theorem good_gacAfter1 {cap : Cap} (p : Pool) (a re g) (hg : Good cap p) : Good cap (p.gacAfter1 a re g) := by
@@ -294,7 +299,7 @@ theorem tame_doGate (p : Pool) (t o) : Tame p (p.doGate t o).1 := by
   unfold doGate
   split
   · refine Tame.trans ?_ (tame_schedTask _ t)
-    exact tame_modTask p t _ (fun _ => rfl) (fun _ => Or.inl rfl)
+    exact tame_modTask p t _
   · exact Tame.refl p
 
 theorem tame_setOrders (p : Pool) (orders) : Tame p ({ p with orders := orders } : Pool) := tame_of_eq _ _ rfl rfl
